@@ -533,3 +533,164 @@ def _map_uncacheable_no_store(ex, st, post, result):
 _c['props'] = sorted(set(_c['props']) | {'C20'})
 _c['trace'] = list(_c['trace']) + [_map_uncacheable_no_store]
 _c['opaque_fields'] = dict(_c['opaque_fields'], cacheable='opaque')
+
+
+def ch_first(st, resp_ev):
+    """the first event after the Response was built (the state in which the caching decision is taken)"""
+    i = st.trace.index(resp_ev)
+    return st.trace[i + 1] if i + 1 < len(st.trace) else resp_ev
+
+
+# ---- C20: WMS-C (tiled=true) answers carry the validators of the cached tile and are answered conditionally -----------------------
+def _map_wmsc_validators(ex, st, post, result):
+    import z3
+    from pyvc.values import eq, ObjSort, VSeq
+    resp = [e for i, e in T.evs(st, 'Response')]
+    rend = [e for i, e in T.evs(st, 'LayerRenderer')]
+    dec = [e for i, e in T.evs(st, 'decorate_img', 'WMSServer.decorate_img')]
+    if not resp or not T.evs(st, 'merge') or len(rend) != 1 or len(dec) != 1:
+        return
+    q = rend[0].args[1]
+    img = dec[0].result
+    tiled = ex.truth(st, ex.opaque_field_at(st, resp[-1], q, 'tiled_only'))
+    ci = ex.opaque_field_at(st, ch_first(st, resp[-1]), img, 'cacheable')
+    is_ci = z3.Function('opaque_isinstance_mapproxy_cache_tile_CacheInfo', ObjSort, z3.BoolSort())(ci.t)
+    cond = z3.And(tiled, is_ci)
+    ch = [(i, e) for i, e in T.evs(st, 'cache_headers') if 'etag_data' in e.kwargs]
+    mc = [(i, e) for i, e in T.evs(st, 'make_conditional')]
+    have = len(ch) == 1 and len(mc) == 1 and ch[0][0] < mc[0][0]
+    g = z3.BoolVal(bool(have))
+    if have:
+        c, m = ch[0][1], mc[0][1]
+        a = [x for x in c.args if x is not c.recv]
+        ts = ex.opaque_field_at(st, c, ci, 'timestamp')
+        sz = ex.opaque_field_at(st, c, ci, 'size')
+        et = c.kwargs['etag_data']
+        http = ex.opaque_field_at(st, m, post.env['map_request'], 'http')
+        okk = len(a) == 1 and isinstance(et, VSeq) and et.concrete and len(et.items) == 2 and 'max_age' in c.kwargs \
+            and c.recv is not None and c.recv.t.eq(resp[-1].result.t) and m.recv is not None and m.recv.t.eq(resp[-1].result.t)
+        g = z3.BoolVal(bool(okk))
+        if okk:
+            ma = [x for x in m.args if x is not m.recv]
+            g = z3.And(g, eq(a[0], ts), eq(et.items[0], ts), eq(et.items[1], sz),
+                       eq(c.kwargs['max_age'], st.heap[post.env['self'].ref]['max_tile_age']),
+                       z3.BoolVal(len(ma) == 1), eq(ma[0], http) if len(ma) == 1 else z3.BoolVal(False))
+    none = z3.BoolVal(not ch and not mc)
+    yield ('wmsc_tile_validators_and_conditional_answer', z3.If(cond, g, none),
+           'a tiled (WMS-C) answer whose image carries the CacheInfo of a cached tile gets cache_headers(timestamp, '
+           'etag_data=(timestamp, size), max_age=max_tile_age) and is then made conditional on the request headers; any other '
+           'map answer gets neither validators nor a 304')
+
+
+_c['trace'] = list(_c['trace']) + [_map_wmsc_validators]
+_c['opaque_fields'] = dict(_c['opaque_fields'], tiled_only='bool', timestamp='opaque', http='opaque')
+_c['stable_fields'] = list(_c['stable_fields']) + ['timestamp', 'http']
+
+
+# ---- the layers handed to the renderer are exactly the (filtered) layers that were collected, in order -------------------------------
+def _render_list_grows(ex, st, k):
+    import z3
+    evs_ = st.trace[getattr(st, 'iter_start_trace', 0):]
+    extd = [e for e in evs_ if e.name == 'extend']
+    rl0 = st.iter_start_state.env['render_layers']
+    ok = len(extd) == 1 and len(extd[0].args) == 1 and extd[0].args[0] is st.env['layers'] and extd[0].recv is not None \
+        and hasattr(rl0, 't') and extd[0].recv.t.eq(rl0.t) and len(evs_) == 1
+    yield ('collected_layers_go_to_the_render_list', z3.BoolVal(bool(ok)),
+           'the map layers of every remaining entry are appended to the render list, in the order of the entries; nothing else '
+           'happens to the list')
+
+
+def _render_list_protocol(ex, st, post, result):
+    import z3
+    filt = _named(st, 'WMSServer.filter_actual_layers')
+    vals = _named(st, 'values')
+    rend = _named(st, 'LayerRenderer')
+    upd = _named(st, 'update_query_with_fwd_params', 'WMSServer.update_query_with_fwd_params')
+    if not rend:
+        return
+    ok = len(filt) == 1 and len(vals) == 1 and len(upd) == 1 and filt[0][0] < vals[0][0] < upd[0][0] < rend[0][0]
+    if ok:
+        al = [a for a in filt[0][1].args if a is not post.env['self']][0]
+        rl = st.env.get('render_layers')
+        u = upd[0][1]
+        ua = [a for a in u.args if a is not post.env['self']]
+        ok = vals[0][1].recv is not None and hasattr(al, 't') and vals[0][1].recv.t.eq(al.t) and rend[0][1].args[0] is rl \
+            and len(ua) == 1 and ua[0] is rend[0][1].args[1] and u.kwargs.get('layers') is rl and u.kwargs.get('params') is st.env.get('params')
+    yield ('rendered_layers_are_the_filtered_layers', z3.BoolVal(bool(ok)),
+           'the render list is built from actual_layers.values() AFTER filter_actual_layers removed what is not permitted; the '
+           'forwarded request parameters are applied to the rendered query for exactly these layers (update_query_with_fwd_params) '
+           'before LayerRenderer(render_layers, query, ..) is created')
+
+
+_c['trace'] = list(_c['trace']) + [_render_list_protocol]
+_REG.loops[(WMS + 'WMSServer.map', 2)]['body_trace'] = [_render_list_grows]
+
+
+# ---- SRS-extent limiting, source-error policy, decoration: what decides them ------------------------------------------------------
+def _map_extent_decisions(ex, st, post, result):
+    import z3
+    from pyvc.values import eq, opaque_eq_str, VSeq
+    cont = [e for i, e in T.evs(st, 'contains') if len(e.args) == 1]     # the method call, not the `in` test
+    inter = [e for i, e in T.evs(st, 'intersection')]
+    me = [e for i, e in T.evs(st, 'MapExtent')]
+    bp = [e for i, e in T.evs(st, 'bbox_position_in_image')]
+    blank = [e for i, e in T.evs(st, 'BlankImageSource')]
+    merges = [e for i, e in T.evs(st, 'merge')]
+    g = z3.BoolVal(len(cont) <= 1 and len(inter) <= 1 and len(bp) <= 1 and len(blank) <= 1 and len(me) <= 1)
+    p_ = st.env.get('params')
+    if me and p_ is not None:
+        g = z3.And(g, eq(me[0].args[0], ex.opaque_field_at(st, me[0], p_, 'bbox')))
+        if cont:
+            g = z3.And(g, z3.BoolVal(len(cont[0].args) == 1 and cont[0].args[0] is me[0].result))
+        if inter:
+            g = z3.And(g, z3.BoolVal(len(inter[0].args) == 1 and inter[0].args[0] is me[0].result and bool(cont)
+                                     and inter[0].recv is not None and inter[0].recv.t.eq(cont[0].recv.t)))
+    inside = ex.truth(st, cont[0].result) if cont else z3.BoolVal(True)
+    overlap = ex.truth(st, inter[0].result) if inter else z3.BoolVal(False)
+    if bp:
+        ok = bool(inter) and len(bp[0].args) == 3
+        g = z3.And(g, z3.BoolVal(ok), z3.Not(inside), overlap)
+        if ok:
+            g = z3.And(g, eq(bp[0].args[2], ex.opaque_field_at(st, bp[0], inter[0].result, 'bbox')))
+    elif blank:
+        g = z3.And(g, z3.BoolVal(bool(inter) and not merges), z3.Not(inside), z3.Not(overlap))
+    else:
+        # the request is rendered as it is: no configured extent for its SRS, or the request lies inside it
+        g = z3.And(g, inside, z3.BoolVal(not inter))
+    yield ('srs_extent_limit_decides_what_is_rendered', g,
+           'the request is cut down to the configured SRS extent exactly when it is not contained in it and overlaps it (cut to '
+           'the intersection); it is answered with a blank image, without rendering anything, exactly when it does not overlap')
+    rend = [e for i, e in T.evs(st, 'LayerRenderer')]
+    if rend:
+        h = st.heap[post.env['self'].ref]
+        kw = rend[0].kwargs
+        want = opaque_eq_str(h['on_error'].t, z3.StringVal('raise'))
+        g2 = z3.BoolVal('raise_source_errors' in kw and 'concurrent_rendering' in kw and len(rend[0].args) == 3
+                        and rend[0].args[2] is post.env['map_request'])
+        if 'raise_source_errors' in kw:
+            g2 = z3.And(g2, ex.truth(st, kw['raise_source_errors']) == want)
+        yield ('source_error_policy_as_configured', g2,
+               "source errors are raised exactly when on_error == 'raise' (otherwise captured and shown in the picture)")
+    dec = [e for i, e in T.evs(st, 'decorate_img', 'WMSServer.decorate_img')]
+    sub = [e for i, e in T.evs(st, 'SubImageSource')]
+    if dec and merges:
+        a = [x for x in dec[0].args if x is not post.env['self']]
+        src = sub[0].result if sub else merges[0].result
+        yield ('decorated_image_is_the_composition', z3.BoolVal(len(dec) == 1 and len(a) >= 1 and a[0] is src),
+               'the image handed to the decorate_img hook (and then sent) is the merged picture (put back into the full-size '
+               'image when the extent was reduced)')
+    adds = [e for i, e in T.evs(st, 'add')]
+    att = [e for i, e in T.evs(st, 'attribution_image')]
+    if rend:
+        q = rend[0].args[1]
+        g3 = z3.BoolVal(len(adds) == len(att) and len(att) <= 1)
+        if len(adds) == 1 and len(att) == 1:
+            g3 = z3.And(g3, z3.BoolVal(adds[0].args[-1] is att[0].result and len(att[0].args) == 2),
+                        eq(att[0].args[1], ex.opaque_field_at(st, att[0], q, 'size')),
+                        z3.Not(ex.truth(st, ex.opaque_field_at(st, att[0], q, 'tiled_only'))))
+        yield ('only_the_attribution_is_added_on_top', g3,
+               'apart from the rendered layers the only thing added to the merger is the attribution image, sized like the '
+               'rendered query, and never for tiled (WMS-C) requests')
+
+
+_c['trace'] = list(_c['trace']) + [_map_extent_decisions]
